@@ -741,6 +741,11 @@ func runC18(c *gen.Ctx) error {
 	// ---- the reference server's own status trailers, and the real server end to end (c18srv.go)
 	c18SrvGen(c)
 
+	// ---- round trips through the repository's own decoders (c18rt.go)
+	c18StatusRTGen(c)
+	c18MDRTGen(c)
+	c18HdrRTGen(c)
+
 	// ---- percent-encoding: every byte, pairs, random strings
 	for b := 0; b < 256; b++ {
 		c.Do("percent", c18PercentIn{gen.Hex([]byte{byte(b)})})
